@@ -383,13 +383,20 @@ pub fn times_of(t0: i64, events: &[Ev]) -> Vec<i64> {
 
 /// event strategy: weights present : absent : err1 : err2
 pub fn ev_strategy(w: [u32; 4], dt: BoxedStrategy<i64>) -> BoxedStrategy<Ev> {
-    prop_oneof![
-        w[0] => (gen::moderate(), dt).prop_map(|(v, dt)| Ev::P(v, dt)),
-        w[1] => Just(Ev::A),
-        w[2] => Just(Ev::E(1)),
-        w[3] => Just(Ev::E(2)),
-    ]
-    .boxed()
+    let mut opts: Vec<(u32, BoxedStrategy<Ev>)> = Vec::new();
+    if w[0] > 0 {
+        opts.push((w[0], (gen::moderate(), dt).prop_map(|(v, dt)| Ev::P(v, dt)).boxed()));
+    }
+    if w[1] > 0 {
+        opts.push((w[1], Just(Ev::A).boxed()));
+    }
+    if w[2] > 0 {
+        opts.push((w[2], Just(Ev::E(1)).boxed()));
+    }
+    if w[3] > 0 {
+        opts.push((w[3], Just(Ev::E(2)).boxed()));
+    }
+    proptest::strategy::Union::new_weighted(opts).boxed()
 }
 /// strictly positive sampling interval, log-uniform 1 us .. 3 h
 pub fn dt_pos() -> BoxedStrategy<i64> {
